@@ -11,7 +11,7 @@ import (
 func init() {
 	register(&Check{
 		ID: "C16", Level: "exploration", QuickSecs: 150, ThoroughSecs: 1200,
-		Rule:        "grammars over {'a',\"\",[ab],.} x {?,*,+,&,!} x seq/choice up to N nodes (quick 4, thorough 5) INCLUDING repetitions with nullable bodies (\"\"*, (&'a')+, ('a'?)*), a recovery loop and left-recursive rules generated with -support-left-recursion; inputs over {a,b} up to L=2 (3); option sets {Memoize, Debug, Recover(false), AllowInvalidUTF8} (all 16 combinations quick: 8); for each the unbounded run (tick-capped) gives c = expressions evaluated, then EVERY budget n in 1..min(c,cap)+1 is run: the call returns, evaluates at most n expressions, reports 'max number of expressions parsed' (as the panic value under Recover(false)) iff the unbounded run needs more than n, and otherwise equals the unbounded observation; without Memoize/left recursion the unbounded count itself must equal the reference interpreter's number of expression evaluations (nothing escapes the budget). Non-trivial = a budget that is exhausted.",
+		Rule:        "grammars over {'a',\"\",[ab],.} x {?,*,+,&,!} x seq/choice up to N nodes (quick 4, thorough 5) INCLUDING repetitions with nullable bodies (\"\"*, (&'a')+, ('a'?)*), a recovery loop and left-recursive rules generated with -support-left-recursion (direct, indirect, and nullable-body repetitions inside leader and non-leader rules of a cycle); inputs over {a,b} up to L=2 (3); option sets {Memoize, Debug, Recover(false), AllowInvalidUTF8} (all 16 combinations quick: 8); for each the unbounded run (tick-capped) gives c = expressions evaluated, then EVERY budget n in 1..min(c,cap)+1 is run: the call returns, evaluates at most n expressions, reports 'max number of expressions parsed' (as the panic value under Recover(false)) iff the unbounded run needs more than n, and otherwise equals the unbounded observation; without Memoize/left recursion the unbounded count itself must equal the reference interpreter's number of expression evaluations (nothing escapes the budget). Non-trivial = a budget that is exhausted.",
 		Assumptions: []string{"E1 loader", "tick cap (loop iterations / function entries) stands in for 'never returns'"},
 		Run:         runC16,
 	})
@@ -48,6 +48,17 @@ func runC16(c *ShardCtx) {
 		gcase{&peg.Grammar{Rules: []*peg.Rule{{Name: "S", Expr: peg.Choice(peg.Seq(peg.Ref("S"), peg.Lit("")), peg.Lit("a"))}}}, core.Gen{LeftRec: true}},
 		gcase{&peg.Grammar{Rules: []*peg.Rule{{Name: "S", Expr: peg.Choice(peg.Seq(peg.Ref("A"), peg.Lit("a")), peg.Lit("b"))}, {Name: "A", Expr: peg.Choice(peg.Seq(peg.Ref("S"), peg.Lit("b")), peg.Lit("a"))}}}, core.Gen{LeftRec: true}},
 	)
+	// repetitions with a nullable body INSIDE rules of a left-recursive cycle (leader and non-leader):
+	// the expression table is not used there, so the budget must stop them under Memoize too
+	{
+		loop := func() *peg.Expr { return peg.Star(peg.Star(peg.Lit("b"))) }
+		cases = append(cases,
+			gcase{&peg.Grammar{Rules: []*peg.Rule{{Name: "S", Expr: peg.Seq(peg.Ref("A"), peg.Not(peg.Any()))}, {Name: "A", Expr: peg.Choice(peg.Seq(peg.Ref("B"), peg.Lit("a")), peg.Lit("a"))},
+				{Name: "B", Expr: peg.Choice(peg.Seq(peg.Ref("A"), peg.Lit("b")), peg.Seq(loop(), peg.Lit("a")))}}}, core.Gen{LeftRec: true}},
+			gcase{&peg.Grammar{Rules: []*peg.Rule{{Name: "E", Expr: peg.Choice(peg.Seq(peg.Ref("E"), loop(), peg.Lit("a")), peg.Lit("a"))}}}, core.Gen{LeftRec: true}},
+			gcase{&peg.Grammar{Rules: []*peg.Rule{{Name: "B", Expr: peg.Choice(peg.Seq(peg.Ref("Z"), peg.Lit("a")), peg.Seq(loop(), peg.Lit("a")))}, {Name: "Z", Expr: peg.Choice(peg.Seq(peg.Ref("B"), peg.Lit("b")), peg.Lit("a"))}}}, core.Gen{LeftRec: true}},
+		)
+	}
 	quirks := map[string]bool{}
 	for _, q := range c.Quirks() {
 		quirks[q] = true
@@ -147,7 +158,7 @@ func runC16(c *ShardCtx) {
 						// D11: with Memoize a repetition whose body matches empty is
 						// served from the memo table forever without charging the budget
 						if quirks["memo-no-charge"] && o.Memoize && obs.Diverged && runaway {
-							if ref := peg.Run(gc.g, in, nil, peg.Options{}); ref.Outcome == peg.ODiverge && ref.Reentry == "" {
+							if ref := peg.Run(gc.g, in, nil, peg.Options{LeftRec: b.Flags.LeftRecursion}); ref.Outcome == peg.ODiverge && ref.Reentry == "" && ref.DivergeMemo {
 								known = "memo-no-charge"
 							}
 						}
